@@ -7,3 +7,62 @@ Theorem C09_nullable_sub_from_source : forall (Vr : Type) (E : EqDec Vr) (nul : 
   py_remove_nullable_production_sub nul body = nullable_sub nul body.
 Proof. exact (@py_nullable_sub_eq). Qed.
 Print Assumptions C09_nullable_sub_from_source.
+
+(* ---- the stages keep the language and produce the promised shape (all grammars, all words) ---- *)
+From Coq Require Import NArith.
+From PFL Require Import Base.Closure Proofs.CfgUseless Proofs.CfgEpsilon Proofs.CfgUnit Proofs.CfgDecompose Proofs.CfgNormalForm.
+
+Theorem C09_remove_useless_lang : forall (Vr : Type) (E : EqDec Vr) (G : cfg Vr) (w : list N),
+  LangG (remove_useless G) w <-> LangG G w.
+Proof. exact (@remove_useless_lang). Qed.
+Print Assumptions C09_remove_useless_lang.
+
+(* every symbol of every remaining production derives a terminal word in the result and is reachable from the start symbol in the result *)
+Theorem C09_remove_useless_shape : forall (Vr : Type) (E : EqDec Vr) (G : cfg Vr) (A : Vr) (body : list (symb Vr)) (s : Vr),
+  g_start G = Some s -> In (A, body) (g_prods (remove_useless G)) ->
+  forall X, X = V A \/ In X body ->
+    (exists w, derives (remove_useless G) X w) /\ reach (sym_succs (remove_useless G)) (V s :: nil) X.
+Proof. exact (@remove_useless_shape). Qed.
+Print Assumptions C09_remove_useless_shape.
+
+(* the empty word is the documented exception *)
+Theorem C09_remove_epsilon_lang : forall (Vr : Type) (E : EqDec Vr) (G : cfg Vr) (w : list N),
+  LangG (remove_epsilon G) w <-> (LangG G w /\ w <> nil).
+Proof. exact (@remove_epsilon_lang). Qed.
+Print Assumptions C09_remove_epsilon_lang.
+
+Theorem C09_remove_epsilon_shape : forall (Vr : Type) (E : EqDec Vr) (G : cfg Vr) (A : Vr) (b : list (symb Vr)),
+  In (A, b) (g_prods (remove_epsilon G)) -> b <> nil.
+Proof. exact (@remove_epsilon_shape). Qed.
+Print Assumptions C09_remove_epsilon_shape.
+
+(* the hypotheses are what CFG.__init__ guarantees (heads and body variables are registered); they hold of every mkcfg value *)
+Theorem C09_eliminate_unit_lang : forall (Vr : Type) (E : EqDec Vr) (G : cfg Vr),
+  (forall A body, In (A, body) (g_prods G) -> In A (g_vars G)) ->
+  (forall A body B, In (A, body) (g_prods G) -> In (V B) body -> In B (g_vars G)) ->
+  forall w : list N, LangG (eliminate_unit G) w <-> LangG G w.
+Proof. exact (@eliminate_unit_lang). Qed.
+Print Assumptions C09_eliminate_unit_lang.
+
+Theorem C09_eliminate_unit_shape : forall (Vr : Type) (E : EqDec Vr) (G : cfg Vr) (A : Vr) (body : list (symb Vr)),
+  In (A, body) (g_prods (eliminate_unit G)) -> is_unit (A, body) = false.
+Proof. exact (@eliminate_unit_shape). Qed.
+Print Assumptions C09_eliminate_unit_shape.
+
+(* binarisation with the shared-suffix cache: every non-fresh symbol keeps its language *)
+Theorem C09_decompose_lang : forall (Vr : Type) (E : EqDec Vr) vs ts st (ps : list (cvar Vr * list (symb (cvar Vr)))),
+  Forall nocc_prod ps -> forall X w, nocc_sym X ->
+  (derives (Gd vs ts st ps) X w <-> derives (Gin vs ts st ps) X w).
+Proof. exact (@decompose_lang). Qed.
+Print Assumptions C09_decompose_lang.
+
+(* to_normal_form (fast path, five-stage clean-up, terminal lifting, binarisation): same non-empty words, Chomsky shape *)
+Theorem C09_to_normal_form_lang : forall (Vr : Type) (E : EqDec Vr) (fuel : nat) (G : cfg Vr) (C : cfg (cvar Vr)) (w : list N),
+  to_normal_form fuel G = Some C -> w <> nil -> (LangG C w <-> LangG G w).
+Proof. exact (@to_normal_form_lang). Qed.
+Print Assumptions C09_to_normal_form_lang.
+
+Theorem C09_to_normal_form_shape : forall (Vr : Type) (E : EqDec Vr) (fuel : nat) (G : cfg Vr) (C : cfg (cvar Vr)),
+  to_normal_form fuel G = Some C -> is_normal_form C = true.
+Proof. exact (@to_normal_form_nf). Qed.
+Print Assumptions C09_to_normal_form_shape.
